@@ -82,7 +82,14 @@ class Thread(threading.Thread):
 
             tb = ''.join(traceback.format_exception(type(e), e, e.__traceback__))
             tb = f'[{threading.current_thread().name}] ' + tb
-            e.__cause__ = type(e)(tb)
+            try:
+                e.__cause__ = type(e)(tb)
+            except Exception:
+                # The exception class can not be created from a single string
+                # (e.g. its `__init__` requires more arguments).
+                # The traceback text still has to travel with `e`, and the future
+                # below must be resolved, otherwise `join` would wait forever.
+                e.__cause__ = RuntimeError(tb)
             e.__traceback__ = None
 
             self._future_.set_exception(e)
